@@ -272,7 +272,8 @@ def run_loop(ctx):
                     'run() assigns self.pc', f.file, bad[0][3])
     # del_breakpoint removes exactly the given object
     d = repo.func('qvm.cpu', 'QvmCpu.del_breakpoint')
-    ok = 'self.breakpoints.remove(bp)' in unparse(d.node)
+    from .. import pat
+    ok = pat.has('self.breakpoints.remove(__)', d.node)
     ctx.instance(rule, f'{d.file}:QvmCpu.del_breakpoint')
     if not ok:
         ctx.finding(rule, f'{d.file}:QvmCpu.del_breakpoint',
